@@ -196,16 +196,14 @@ impl<T> Sub<T> {
     pub fn len(&self) -> (r: usize) ensures r == self.cnt() { unimplemented!() }
     #[verifier::external_body]
     pub fn is_empty(&self) -> (r: bool) ensures r == (self.cnt() == 0) { unimplemented!() }
-    // cache warm-up of a lower layer (C12): same stored routes, same observable behaviour (sub_obs names the function request -> answer),
-    // never hands back more budget than it got
+    // cache warm-up of a lower layer (C12): same stored routes under the same invariant (hence, by exactness, the same answer to every
+    // request: lemma_sub_same_answers), never hands back more budget than it got. PROVED for every real layer below (fn cache of each).
     #[verifier::external_body]
     pub fn cache(&mut self, limit: u64, level: u64) -> (r: u64)
         requires old(self).wf(),
-        ensures final(self).wf(), final(self).cnt() == old(self).cnt(), sub_obs(*final(self)) == sub_obs(*old(self)), r <= limit,
-            forall|x: RouteRef<T>| #![trigger final(self).holds(x)] final(self).holds(x) <==> old(self).holds(x),
+        ensures same_store(*old(self), *final(self)), r <= limit,
     { unimplemented!() }
 }
-pub uninterp spec fn sub_obs<T>(s: Sub<T>) -> int;
 // consequences of the lower layer's invariant (part of / implied by wf() on the layers verified here: see lemma_*_wf below)
 #[verifier::external_body]
 pub proof fn lemma_sub_wf<T>(s: Sub<T>) requires s.wf() ensures uniq(s), s.cnt() == 0 ==> forall|x: RouteRef<T>| !s.holds(x), s.cnt() <= usize::MAX {}
@@ -580,6 +578,91 @@ pub proof fn lemma_chain_removed_t<K, T, S: Store<T>>(m0: Map<K, S>, m1: Map<K, 
         assert(map_holds_id(m0, id));
     }
 }
+// ---- R14: `for v in map.values_mut() { BODY }` / `for v in tree.iter_mut() { BODY }` where BODY updates ONE captured local (the cache budget).
+// vstd has no iterator model for these; the generator lifts the loop body into a closure over (&mut value, &mut state) and routes it through
+// a helper whose body is the original loop applied to the lifted closure. ASSUMED (trusted, listed): the loop visits every value exactly
+// once, in some order, threading the state through; keys are untouched. The loop BODY is the real code and is verified in place.
+pub open spec fn vchain<K, V, St>(m0: Map<K, V>, m1: Map<K, V>, s0: St, s1: St, post: spec_fn(V, V, St, St) -> bool) -> bool {
+    exists|order: Seq<K>, states: Seq<St>| vchain_w(m0, m1, s0, s1, post, order, states)
+}
+pub open spec fn vchain_w<K, V, St>(m0: Map<K, V>, m1: Map<K, V>, s0: St, s1: St, post: spec_fn(V, V, St, St) -> bool, order: Seq<K>, states: Seq<St>) -> bool {
+    &&& order.no_duplicates() && (forall|k: K| m0.contains_key(k) <==> #[trigger] order.contains(k))
+    &&& forall|k: K| #[trigger] m1.contains_key(k) <==> m0.contains_key(k)
+    &&& states.len() == order.len() + 1 && states[0] == s0 && states[order.len() as int] == s1
+    &&& forall|i: int| 0 <= i < order.len() ==> post(m0[#[trigger] order[i]], m1[order[i]], states[i], states[i + 1])
+}
+pub open spec fn is_val<K, V>(m: Map<K, V>, v: V) -> bool { exists|k: K| m.contains_key(k) && #[trigger] m[k] == v }
+#[verifier::external_body]
+pub fn vf_values_mut_st<K, V, St, F: FnMut(&mut V, &mut St)>(m: &mut HashMap<K, V>, st: &mut St, f: F, post: Ghost<spec_fn(V, V, St, St) -> bool>)
+    requires forall|v: &mut V, s: &mut St| is_val(old(m)@, *v) ==> #[trigger] f.requires((v, s)),
+        forall|v: &mut V, s: &mut St| is_val(old(m)@, *v) && #[trigger] f.ensures((v, s), ()) ==> post@(*v, *final(v), *s, *final(s)),
+    ensures vchain(old(m)@, final(m)@, *old(st), *final(st), post@),
+{ /* verbatim: for PAT in RECV.values_mut() { f(PAT, &mut VAR) } */ let mut f = f; for v in m.values_mut() { f(v, st) } }
+#[verifier::external_body]
+pub fn vf_bvalues_mut_st<K: std::cmp::Ord, V, St, F: FnMut(&mut V, &mut St)>(m: &mut BTreeMap<K, V>, st: &mut St, f: F, post: Ghost<spec_fn(V, V, St, St) -> bool>)
+    requires forall|v: &mut V, s: &mut St| is_val(old(m)@, *v) ==> #[trigger] f.requires((v, s)),
+        forall|v: &mut V, s: &mut St| is_val(old(m)@, *v) && #[trigger] f.ensures((v, s), ()) ==> post@(*v, *final(v), *s, *final(s)),
+    ensures vchain(old(m)@, final(m)@, *old(st), *final(st), post@),
+{ /* verbatim: for PAT in RECV.values_mut() { f(PAT, &mut VAR) } */ let mut f = f; for v in m.values_mut() { f(v, st) } }
+// what one step of a cache loop guarantees: the bucket stores the same routes under the same invariant; the budget does not grow
+pub open spec fn same_store<T, S: Store<T>>(v0: S, v1: S) -> bool {
+    v1.wf() && v1.cnt() == v0.cnt() && forall|x: RouteRef<T>| #![trigger v1.holds(x)] #![trigger v0.holds(x)] v1.holds(x) <==> v0.holds(x)
+}
+pub open spec fn post_cache<T, S: Store<T>>() -> spec_fn(S, S, u64, u64) -> bool {
+    |v0: S, v1: S, s0: u64, s1: u64| v0.wf() ==> same_store(v0, v1) && s1 <= s0
+}
+pub open spec fn entries_same<K, T, S: Store<T>>(m0: Map<K, S>, m1: Map<K, S>) -> bool {
+    &&& forall|k: K| #[trigger] m1.contains_key(k) <==> m0.contains_key(k)
+    &&& forall|k: K| m0.contains_key(k) ==> same_store(m0[k], #[trigger] m1[k])
+}
+pub proof fn lemma_vchain_budget<K, T, S: Store<T>>(m0: Map<K, S>, m1: Map<K, S>, s0: u64, s1: u64, order: Seq<K>, states: Seq<u64>, n: int)
+    requires vchain_w(m0, m1, s0, s1, post_cache::<T, S>(), order, states), map_wf(m0), 0 <= n <= order.len(),
+    ensures states[n] <= s0,
+    decreases n,
+{
+    if n > 0 {
+        lemma_vchain_budget::<K, T, S>(m0, m1, s0, s1, order, states, n - 1);
+        let k = order[n - 1]; assert(order.contains(k)); assert(m0.contains_key(k)); assert(m0[k].wf());
+        assert(post_cache::<T, S>()(m0[order[n - 1]], m1[order[n - 1]], states[n - 1], states[n - 1 + 1]));
+    }
+}
+pub proof fn lemma_vchain_cached<K, T, S: Store<T>>(m0: Map<K, S>, m1: Map<K, S>, s0: u64, s1: u64)
+    requires vchain(m0, m1, s0, s1, post_cache::<T, S>()), map_wf(m0),
+    ensures entries_same(m0, m1), s1 <= s0,
+{
+    let (order, states) = choose|order: Seq<K>, states: Seq<u64>| vchain_w(m0, m1, s0, s1, post_cache::<T, S>(), order, states);
+    lemma_vchain_budget::<K, T, S>(m0, m1, s0, s1, order, states, order.len() as int);
+    assert forall|k: K| m0.contains_key(k) implies same_store(m0[k], #[trigger] m1[k]) by {
+        assert(order.contains(k)); let i = choose|i: int| 0 <= i < order.len() && order[i] == k; assert(m0[k].wf());
+        assert(post_cache::<T, S>()(m0[order[i]], m1[order[i]], states[i], states[i + 1]));
+    }
+}
+// a map whose buckets all store the same routes as before: every map-level fact the layer invariants use carries over
+pub proof fn lemma_map_same<K, T, S: Store<T>>(m0: Map<K, S>, m1: Map<K, S>, kf: spec_fn(K, RouteRef<T>) -> bool)
+    requires entries_same(m0, m1), map_wf(m0),
+    ensures map_wf(m1), msum(m1, cnt_of::<T, S>()) == msum(m0, cnt_of::<T, S>()),
+        forall|x: RouteRef<T>| #![trigger map_holds(m1, x)] #![trigger map_holds(m0, x)] map_holds(m1, x) <==> map_holds(m0, x),
+        map_keyed(m0, kf) ==> map_keyed(m1, kf), map_complete(m0, kf) ==> map_complete(m1, kf),
+{
+    let f = cnt_of::<T, S>();
+    assert(m1.dom() =~= m0.dom());
+    lemma_msum_sub(m0, m1, f);
+    assert forall|x: RouteRef<T>| #![trigger map_holds(m1, x)] #![trigger map_holds(m0, x)] map_holds(m1, x) <==> map_holds(m0, x) by {
+        if map_holds(m1, x) { let k = choose|k: K| m1.contains_key(k) && #[trigger] m1[k].holds(x); assert(m0.contains_key(k) && m0[k].holds(x)); }
+        if map_holds(m0, x) { let k = choose|k: K| m0.contains_key(k) && #[trigger] m0[k].holds(x); assert(m1.contains_key(k) && m1[k].holds(x)); }
+    }
+    if map_keyed(m0, kf) { assert forall|k: K, x: RouteRef<T>| m1.contains_key(k) && #[trigger] m1[k].holds(x) implies kf(k, x) by { assert(m0[k].holds(x)); } }
+    if map_complete(m0, kf) {
+        assert forall|k: K, x: RouteRef<T>| #![trigger kf(k, x), map_holds(m1, x)] kf(k, x) && map_holds(m1, x) implies m1.contains_key(k) && m1[k].holds(x) by {
+            assert(map_holds(m0, x)); assert(m0.contains_key(k) && m0[k].holds(x));
+        }
+    }
+}
+// same stored routes under the invariant ==> same answers (C12 for the lower layer, from its exactness)
+pub proof fn lemma_sub_same_answers<T>(a: Sub<T>, b: Sub<T>, q: Request)
+    requires a.wf(), same_store(a, b),
+    ensures forall|x: RouteRef<T>| sub_answers(a, q, x) <==> sub_answers(b, q, x),
+{ lemma_sub_exact(a, q); lemma_sub_exact(b, q); }
 // ================================================================ scheme layer
 //@@ rename HostMatcher Sub
 //@@ item src/router/request_matcher/scheme.rs :: struct SchemeMatcher
@@ -699,6 +782,17 @@ pub proof fn lemma_scheme_removed<T>(o: SchemeMatcher<T>, n: SchemeMatcher<T>, i
     assert forall|x: RouteRef<T>| #[trigger] n.any_scheme.holds(x) implies sch_any_ok(x) by { assert(o.any_scheme.holds(x)); }
     lemma_scheme_uniq_bridge(n);
 }
+pub proof fn lemma_scheme_cached<T>(o: SchemeMatcher<T>, n: SchemeMatcher<T>)
+    requires o.wf(), same_store(o.any_scheme, n.any_scheme), entries_same(o.schemes@, n.schemes@), n.count == o.count,
+    ensures same_store(o, n),
+{
+    lemma_map_same(o.schemes@, n.schemes@, sch_kf::<T>());
+    assert forall|x: RouteRef<T>| #![trigger n.holds(x)] #![trigger o.holds(x)] n.holds(x) <==> o.holds(x) by {}
+    lemma_uniq_subset(o, n);
+    assert forall|k: String| #[trigger] n.schemes@.contains_key(k) implies k@.len() > 0 by { assert(o.schemes@.contains_key(k)); }
+    assert forall|x: RouteRef<T>| #[trigger] n.any_scheme.holds(x) implies sch_any_ok(x) by { assert(o.any_scheme.holds(x)); }
+    lemma_scheme_uniq_bridge(n);
+}
 pub proof fn lemma_scheme_batched<T>(o: SchemeMatcher<T>, n: SchemeMatcher<T>, ids: Set<String>)
     requires o.wf(), batched_rel(o.any_scheme, n.any_scheme, ids), entries_batched(o.schemes@, n.schemes@, ids), n.count == o.count,
     ensures batched_rel(o, n, ids),
@@ -804,6 +898,15 @@ impl<T> SchemeMatcher<T> {
     //@| }
     //@| outline `routes.extend(matcher.match_request(request));` => `ext_routes(&mut routes, matcher.match_request(request));`
 
+    // C12 / C02 (scheme layer): warming the cache keeps the invariant and the stored set (hence every answer: c12_scheme_cache); budget never grows
+    //@@ fn src/router/request_matcher/scheme.rs :: impl <T>SchemeMatcher<T> / fn cache -> r
+    //@| requires old(self).wf(),
+    //@| ensures same_store(*old(self), *final(self)), r <= limit,
+    //@| forlift `for matcher in self.schemes.values_mut() {` var `new_limit` helper `vf_values_mut_st` header `|matcher: &mut Sub<T>, vf_st: &mut u64| requires old(matcher).wf() ensures same_store(*old(matcher), *final(matcher)), *final(vf_st) <= *old(vf_st)` ghost `Ghost(post_cache::<T, Sub<T>>())`
+    //@| entry broadcast use group_hash_axioms; broadcast use axiom_string_key_model;
+    //@| before `for matcher in self.schemes.values_mut() {`: let ghost vf_m0 = self.schemes@; let ghost vf_l0 = new_limit;
+    //@| exit proof { lemma_vchain_cached::<String, T, Sub<T>>(vf_m0, self.schemes@, vf_l0, new_limit); lemma_scheme_cached(*old(self), *self); }
+
     //@@ fn src/router/request_matcher/scheme.rs :: impl <T>SchemeMatcher<T> / fn len -> r
     //@| ensures r == self.cnt(),
     //@@ fn src/router/request_matcher/scheme.rs :: impl <T>SchemeMatcher<T> / fn is_empty -> r
@@ -849,7 +952,18 @@ impl<V> UniqueRegexTreeMap<V> {
     { unimplemented!() }
     #[verifier::external_body]
     pub fn is_empty(&self) -> (r: bool) ensures r == (self.tmap().len() == 0) { unimplemented!() }
+    // warm-up of the tree's own node / leaf regexes: the stored pattern -> value map is untouched (unit `tree` proves the real function keeps the
+    // tree well-formed and observationally the same: UniqueRegexTreeMap::cache ensures same_obs), never hands back more budget than it got
+    #[verifier::external_body]
+    pub fn cache(&mut self, limit: u64, level: Option<u64>) -> (r: u64) ensures final(self).tmap() == old(self).tmap(), r <= limit { unimplemented!() }
 }
+// R14 helper for the values of the unique regex tree (same ASSUMED visiting contract as vf_values_mut_st; the tree's iter_mut / ItemIterMut are pinned)
+#[verifier::external_body]
+pub fn vf_tree_iter_mut_st<V, St, F: FnMut(&mut V, &mut St)>(t: &mut UniqueRegexTreeMap<V>, st: &mut St, f: F, post: Ghost<spec_fn(V, V, St, St) -> bool>)
+    requires forall|v: &mut V, s: &mut St| is_val(old(t).tmap(), *v) ==> #[trigger] f.requires((v, s)),
+        forall|v: &mut V, s: &mut St| is_val(old(t).tmap(), *v) && #[trigger] f.ensures((v, s), ()) ==> post@(*v, *final(v), *s, *final(s)),
+    ensures vchain(old(t).tmap(), final(t).tmap(), *old(st), *final(st), post@),
+{ /* verbatim: let mut f = f; for v in t.iter_mut() { f(v, st) } -- the shim type has no iter_mut; the helper stands for exactly this loop */ unimplemented!() }
 // R8 outline, ASSUMED contract (trusted, listed): the three statements
 //     let removed_in_regex = Cell::new(None);
 //     self.regex_tree_rule.retain(&|_, matcher| { if let Some(value) = matcher.remove(id) { removed_in_regex.set(Some(value)); } !matcher.is_empty() });
@@ -1003,6 +1117,17 @@ pub proof fn lemma_host_removed<T>(o: HostMatcher<T>, n: HostMatcher<T>, id: Seq
     assert forall|k: String| #[trigger] n.static_hosts@.contains_key(k) implies k@.len() > 0 by { assert(o.static_hosts@.contains_key(k)); }
     assert forall|x: RouteRef<T>| #[trigger] n.any_host.holds(x) implies hst_any_ok(x) by { assert(o.any_host.holds(x)); }
 }
+pub proof fn lemma_host_cached<T>(o: HostMatcher<T>, n: HostMatcher<T>)
+    requires o.wf(), same_store(o.any_host, n.any_host), entries_same(o.static_hosts@, n.static_hosts@), entries_same(o.regex_tree_rule.tmap(), n.regex_tree_rule.tmap()), n.count == o.count,
+    ensures same_store(o, n),
+{
+    lemma_map_same(o.static_hosts@, n.static_hosts@, hst_kf::<T>());
+    lemma_map_same(o.regex_tree_rule.tmap(), n.regex_tree_rule.tmap(), hdy_kf::<T>());
+    assert forall|x: RouteRef<T>| #![trigger n.holds(x)] #![trigger o.holds(x)] n.holds(x) <==> o.holds(x) by {}
+    lemma_uniq_subset(o, n); lemma_host_uniq_bridge(n);
+    assert forall|k: String| #[trigger] n.static_hosts@.contains_key(k) implies k@.len() > 0 by { assert(o.static_hosts@.contains_key(k)); }
+    assert forall|x: RouteRef<T>| #[trigger] n.any_host.holds(x) implies hst_any_ok(x) by { assert(o.any_host.holds(x)); }
+}
 pub proof fn lemma_host_batched<T>(o: HostMatcher<T>, n: HostMatcher<T>, ids: Set<String>)
     requires o.wf(), batched_rel(o.any_host, n.any_host, ids), entries_batched(o.static_hosts@, n.static_hosts@, ids), entries_batched(o.regex_tree_rule.tmap(), n.regex_tree_rule.tmap(), ids), n.count == o.count,
     ensures batched_rel(o, n, ids),
@@ -1139,6 +1264,18 @@ impl<T> HostMatcher<T> {
     //@| entry broadcast use group_hash_axioms; broadcast use axiom_string_key_model;
     //@|     proof { axiom_string_ext(); }
     //@| exit proof { assert(entries_batched(old(self).regex_tree_rule.tmap(), self.regex_tree_rule.tmap(), ids@)); lemma_host_batched(*old(self), *self, ids@); }
+
+    // C12 / C02 (host layer): warming the cache keeps the invariant, the stored set and the any-host policy flag; budget never grows
+    //@@ fn src/router/request_matcher/host.rs :: impl <T>HostMatcher<T> / fn cache -> r
+    //@| requires old(self).wf(),
+    //@| ensures same_store(*old(self), *final(self)), r <= limit, final(self).always_match_any_host == old(self).always_match_any_host,
+    //@| forlift `for matcher in self.static_hosts.values_mut() {` var `new_limit` helper `vf_values_mut_st` header `|matcher: &mut Sub<T>, vf_st: &mut u64| requires old(matcher).wf() ensures same_store(*old(matcher), *final(matcher)), *final(vf_st) <= *old(vf_st)` ghost `Ghost(post_cache::<T, Sub<T>>())`
+    //@| forlift `for matcher in self.regex_tree_rule.iter_mut() {` var `new_limit` helper `vf_tree_iter_mut_st` header `|matcher: &mut Sub<T>, vf_st: &mut u64| requires old(matcher).wf() ensures same_store(*old(matcher), *final(matcher)), *final(vf_st) <= *old(vf_st)` ghost `Ghost(post_cache::<T, Sub<T>>())`
+    //@| entry broadcast use group_hash_axioms; broadcast use axiom_string_key_model;
+    //@| before `for matcher in self.static_hosts.values_mut() {`: let ghost vf_m0 = self.static_hosts@; let ghost vf_l0 = new_limit;
+    //@| before `for matcher in self.regex_tree_rule.iter_mut() {`: proof { lemma_vchain_cached::<String, T, Sub<T>>(vf_m0, self.static_hosts@, vf_l0, new_limit); }
+    //@|     let ghost vf_t0 = self.regex_tree_rule.tmap(); let ghost vf_l1 = new_limit;
+    //@| exit proof { lemma_vchain_cached::<Seq<char>, T, Sub<T>>(vf_t0, self.regex_tree_rule.tmap(), vf_l1, new_limit); lemma_host_cached(*old(self), *self); }
 
     //@@ fn src/router/request_matcher/host.rs :: impl <T>HostMatcher<T> / fn len -> r
     //@| ensures r == self.cnt(),
@@ -1293,6 +1430,16 @@ pub proof fn lemma_ip_removed<T>(o: IpMatcher<T>, n: IpMatcher<T>, id: Seq<char>
     }
     lemma_uniq_subset(o, n); lemma_ip_uniq_bridge(n);
     lemma_ip_counted_sub(o, n, r is Some);
+    assert forall|x: RouteRef<T>| #[trigger] n.no_matcher.holds(x) implies rips(*x) is None by { assert(o.no_matcher.holds(x)); }
+}
+pub proof fn lemma_ip_cached<T>(o: IpMatcher<T>, n: IpMatcher<T>)
+    requires o.wf(), same_store(o.no_matcher, n.no_matcher), entries_same(o.matchers@, n.matchers@), n.count == o.count,
+    ensures same_store(o, n),
+{
+    lemma_map_same(o.matchers@, n.matchers@, ip_kf::<T>());
+    assert forall|x: RouteRef<T>| #![trigger n.holds(x)] #![trigger o.holds(x)] n.holds(x) <==> o.holds(x) by {}
+    lemma_uniq_subset(o, n); lemma_ip_uniq_bridge(n);
+    lemma_ip_counted_sub(o, n, false);
     assert forall|x: RouteRef<T>| #[trigger] n.no_matcher.holds(x) implies rips(*x) is None by { assert(o.no_matcher.holds(x)); }
 }
 pub proof fn lemma_ip_batched<T>(o: IpMatcher<T>, n: IpMatcher<T>, ids: Set<String>)
@@ -1485,6 +1632,15 @@ impl<T> IpMatcher<T> {
     //@| outline `routes.iter().any(|known| Arc::ptr_eq(known, &route))` => `outl_known(&routes, &route)`
     //@| outline `routes.extend(matcher.match_request(request));` => `ext_routes(&mut routes, matcher.match_request(request));`
 
+    // C12 / C02 (ip layer): warming the cache keeps the invariant and the stored set; budget never grows
+    //@@ fn src/router/request_matcher/ip.rs :: impl <T>IpMatcher<T> / fn cache -> r
+    //@| requires old(self).wf(),
+    //@| ensures same_store(*old(self), *final(self)), r <= limit,
+    //@| forlift `for matcher in self.matchers.values_mut() {` var `new_limit` helper `vf_values_mut_st` header `|matcher: &mut Sub<T>, vf_st: &mut u64| requires old(matcher).wf() ensures same_store(*old(matcher), *final(matcher)), *final(vf_st) <= *old(vf_st)` ghost `Ghost(post_cache::<T, Sub<T>>())`
+    //@| entry broadcast use group_hash_axioms; broadcast use axiom_routeip_key_model;
+    //@| before `for matcher in self.matchers.values_mut() {`: let ghost vf_m0 = self.matchers@; let ghost vf_l0 = new_limit;
+    //@| exit proof { lemma_vchain_cached::<RouteIp, T, Sub<T>>(vf_m0, self.matchers@, vf_l0, new_limit); lemma_ip_cached(*old(self), *self); }
+
     //@@ fn src/router/request_matcher/ip.rs :: impl <T>IpMatcher<T> / fn len -> r
     //@| ensures r == self.cnt(),
     //@@ fn src/router/request_matcher/ip.rs :: impl <T>IpMatcher<T> / fn is_empty -> r
@@ -1652,6 +1808,17 @@ pub proof fn lemma_meth_removed<T>(o: MethodMatcher<T>, n: MethodMatcher<T>, id:
     lemma_meth_counted_sub(o, n, r is Some);
     assert forall|x: RouteRef<T>| #[trigger] n.any_method.holds(x) implies meth_any_ok(x) by { assert(o.any_method.holds(x)); }
 }
+pub proof fn lemma_meth_cached<T>(o: MethodMatcher<T>, n: MethodMatcher<T>)
+    requires o.wf(), same_store(o.any_method, n.any_method), entries_same(o.methods@, n.methods@), entries_same(o.exclude_methods@, n.exclude_methods@), n.count == o.count,
+    ensures same_store(o, n),
+{
+    lemma_map_same(o.methods@, n.methods@, meth_kf::<T>());
+    lemma_map_same(o.exclude_methods@, n.exclude_methods@, excl_kf::<T>());
+    assert forall|x: RouteRef<T>| #![trigger n.holds(x)] #![trigger o.holds(x)] n.holds(x) <==> o.holds(x) by {}
+    lemma_uniq_subset(o, n); lemma_meth_uniq_bridge(n);
+    lemma_meth_counted_sub(o, n, false);
+    assert forall|x: RouteRef<T>| #[trigger] n.any_method.holds(x) implies meth_any_ok(x) by { assert(o.any_method.holds(x)); }
+}
 pub proof fn lemma_meth_batched<T>(o: MethodMatcher<T>, n: MethodMatcher<T>, ids: Set<String>)
     requires o.wf(), batched_rel(o.any_method, n.any_method, ids), entries_batched(o.methods@, n.methods@, ids), entries_batched(o.exclude_methods@, n.exclude_methods@, ids), n.count == o.count,
     ensures batched_rel(o, n, ids),
@@ -1809,6 +1976,18 @@ impl<T> MethodMatcher<T> {
     //@| closure `|_, matcher|`#1 => `|_k: &Vec<String>, matcher: &mut Sub<T>| -> (b: bool) requires old(matcher).wf() ensures batched_rel(*old(matcher), *final(matcher), ids@), !b ==> final(matcher).cnt() == 0`
     //@| entry broadcast use group_hash_axioms; broadcast use axiom_string_key_model; broadcast use axiom_vecstring_key_model;
     //@| exit proof { lemma_meth_batched(*old(self), *self, ids@); }
+
+    // C12 / C02 (method layer): warming the cache keeps the invariant and the stored set; budget never grows
+    //@@ fn src/router/request_matcher/method.rs :: impl <T>MethodMatcher<T> / fn cache -> r
+    //@| requires old(self).wf(),
+    //@| ensures same_store(*old(self), *final(self)), r <= limit,
+    //@| forlift `for matcher in self.methods.values_mut() {` var `new_limit` helper `vf_values_mut_st` header `|matcher: &mut Sub<T>, vf_st: &mut u64| requires old(matcher).wf() ensures same_store(*old(matcher), *final(matcher)), *final(vf_st) <= *old(vf_st)` ghost `Ghost(post_cache::<T, Sub<T>>())`
+    //@| forlift `for matcher in self.exclude_methods.values_mut() {` var `new_limit` helper `vf_values_mut_st` header `|matcher: &mut Sub<T>, vf_st: &mut u64| requires old(matcher).wf() ensures same_store(*old(matcher), *final(matcher)), *final(vf_st) <= *old(vf_st)` ghost `Ghost(post_cache::<T, Sub<T>>())`
+    //@| entry broadcast use group_hash_axioms; broadcast use axiom_string_key_model; broadcast use axiom_vecstring_key_model;
+    //@| before `for matcher in self.methods.values_mut() {`: let ghost vf_m0 = self.methods@; let ghost vf_l0 = new_limit;
+    //@| before `for matcher in self.exclude_methods.values_mut() {`: proof { lemma_vchain_cached::<String, T, Sub<T>>(vf_m0, self.methods@, vf_l0, new_limit); }
+    //@|     let ghost vf_e0 = self.exclude_methods@; let ghost vf_l1 = new_limit;
+    //@| exit proof { lemma_vchain_cached::<Vec<String>, T, Sub<T>>(vf_e0, self.exclude_methods@, vf_l1, new_limit); lemma_meth_cached(*old(self), *self); }
 
     //@@ fn src/router/request_matcher/method.rs :: impl <T>MethodMatcher<T> / fn len -> r
     //@| ensures r == self.cnt(),
@@ -2014,6 +2193,16 @@ pub proof fn lemma_hdr_removed<T>(o: HeaderMatcher<T>, n: HeaderMatcher<T>, id: 
     lemma_hdr_counted_sub(o, n, r is Some);
     assert forall|x: RouteRef<T>| #[trigger] n.any_header.holds(x) implies rheaders(*x).len() == 0 by { assert(o.any_header.holds(x)); }
 }
+pub proof fn lemma_hdr_cached<T>(o: HeaderMatcher<T>, n: HeaderMatcher<T>)
+    requires o.wf(), same_store(o.any_header, n.any_header), entries_same(o.condition_groups@, n.condition_groups@), n.count == o.count,
+    ensures same_store(o, n),
+{
+    lemma_map_same(o.condition_groups@, n.condition_groups@, hdr_kf::<T>());
+    assert forall|x: RouteRef<T>| #![trigger n.holds(x)] #![trigger o.holds(x)] n.holds(x) <==> o.holds(x) by {}
+    lemma_uniq_subset(o, n); lemma_hdr_uniq_bridge(n);
+    lemma_hdr_counted_sub(o, n, false);
+    assert forall|x: RouteRef<T>| #[trigger] n.any_header.holds(x) implies rheaders(*x).len() == 0 by { assert(o.any_header.holds(x)); }
+}
 pub proof fn lemma_hdr_batched<T>(o: HeaderMatcher<T>, n: HeaderMatcher<T>, ids: Set<String>)
     requires o.wf(), batched_rel(o.any_header, n.any_header, ids), entries_batched(o.condition_groups@, n.condition_groups@, ids), n.count == o.count,
     ensures batched_rel(o, n, ids),
@@ -2139,6 +2328,15 @@ impl<T> HeaderMatcher<T> {
     //@| closure `|_, matcher|` => `|_k: &BTreeSet<HeaderCondition>, matcher: &mut Sub<T>| -> (b: bool) requires old(matcher).wf() ensures batched_rel(*old(matcher), *final(matcher), ids@), !b ==> final(matcher).cnt() == 0`
     //@| entry broadcast use vstd::std_specs::btree::group_btree_axioms; broadcast use axiom_hc_key; broadcast use axiom_hcset_key;
     //@| exit proof { lemma_hdr_batched(*old(self), *self, ids@); }
+
+    // C12 / C02 (header layer): warming the cache keeps the invariant and the stored set; budget never grows
+    //@@ fn src/router/request_matcher/header.rs :: impl <T>HeaderMatcher<T> / fn cache -> r
+    //@| requires old(self).wf(),
+    //@| ensures same_store(*old(self), *final(self)), r <= limit, final(self).conditions == old(self).conditions,
+    //@| forlift `for matcher in self.condition_groups.values_mut() {` var `new_limit` helper `vf_bvalues_mut_st` header `|matcher: &mut Sub<T>, vf_st: &mut u64| requires old(matcher).wf() ensures same_store(*old(matcher), *final(matcher)), *final(vf_st) <= *old(vf_st)` ghost `Ghost(post_cache::<T, Sub<T>>())`
+    //@| entry broadcast use vstd::std_specs::btree::group_btree_axioms; broadcast use axiom_hc_key; broadcast use axiom_hcset_key;
+    //@| before `for matcher in self.condition_groups.values_mut() {`: let ghost vf_m0 = self.condition_groups@; let ghost vf_l0 = new_limit;
+    //@| exit proof { lemma_vchain_cached::<BTreeSet<HeaderCondition>, T, Sub<T>>(vf_m0, self.condition_groups@, vf_l0, new_limit); lemma_hdr_cached(*old(self), *self); }
 
     //@@ fn src/router/request_matcher/header.rs :: impl <T>HeaderMatcher<T> / fn len -> r
     //@| ensures r == self.cnt(),
@@ -2300,6 +2498,16 @@ pub proof fn lemma_dt_removed<T>(o: DateTimeMatcher<T>, n: DateTimeMatcher<T>, i
     lemma_dt_counted_sub(o, n, r is Some);
     assert forall|x: RouteRef<T>| #[trigger] n.any_datetime.holds(x) implies dt_none(x) by { assert(o.any_datetime.holds(x)); }
 }
+pub proof fn lemma_dt_cached<T>(o: DateTimeMatcher<T>, n: DateTimeMatcher<T>)
+    requires o.wf(), same_store(o.any_datetime, n.any_datetime), entries_same(o.condition_groups@, n.condition_groups@), n.count == o.count,
+    ensures same_store(o, n),
+{
+    lemma_map_same(o.condition_groups@, n.condition_groups@, dt_kf::<T>());
+    assert forall|x: RouteRef<T>| #![trigger n.holds(x)] #![trigger o.holds(x)] n.holds(x) <==> o.holds(x) by {}
+    lemma_uniq_subset(o, n); lemma_dt_uniq_bridge(n);
+    lemma_dt_counted_sub(o, n, false);
+    assert forall|x: RouteRef<T>| #[trigger] n.any_datetime.holds(x) implies dt_none(x) by { assert(o.any_datetime.holds(x)); }
+}
 pub proof fn lemma_dt_batched<T>(o: DateTimeMatcher<T>, n: DateTimeMatcher<T>, ids: Set<String>)
     requires o.wf(), batched_rel(o.any_datetime, n.any_datetime, ids), entries_batched(o.condition_groups@, n.condition_groups@, ids), n.count == o.count,
     ensures batched_rel(o, n, ids),
@@ -2406,6 +2614,15 @@ impl<T> DateTimeMatcher<T> {
     //@| entry broadcast use vstd::std_specs::btree::group_btree_axioms; broadcast use axiom_dtc_key; broadcast use axiom_dtcset_key;
     //@| exit proof { lemma_dt_batched(*old(self), *self, ids@); }
 
+    // C12 / C02 (date-time layer): warming the cache keeps the invariant and the stored set; budget never grows
+    //@@ fn src/router/request_matcher/datetime.rs :: impl <T>DateTimeMatcher<T> / fn cache -> r
+    //@| requires old(self).wf(),
+    //@| ensures same_store(*old(self), *final(self)), r <= limit, final(self).conditions == old(self).conditions,
+    //@| forlift `for matcher in self.condition_groups.values_mut() {` var `new_limit` helper `vf_bvalues_mut_st` header `|matcher: &mut Sub<T>, vf_st: &mut u64| requires old(matcher).wf() ensures same_store(*old(matcher), *final(matcher)), *final(vf_st) <= *old(vf_st)` ghost `Ghost(post_cache::<T, Sub<T>>())`
+    //@| entry broadcast use vstd::std_specs::btree::group_btree_axioms; broadcast use axiom_dtc_key; broadcast use axiom_dtcset_key;
+    //@| before `for matcher in self.condition_groups.values_mut() {`: let ghost vf_m0 = self.condition_groups@; let ghost vf_l0 = new_limit;
+    //@| exit proof { lemma_vchain_cached::<BTreeSet<DateTimeCondition>, T, Sub<T>>(vf_m0, self.condition_groups@, vf_l0, new_limit); lemma_dt_cached(*old(self), *self); }
+
     //@@ fn src/router/request_matcher/datetime.rs :: impl <T>DateTimeMatcher<T> / fn len -> r
     //@| ensures r == self.cnt(),
     //@@ fn src/router/request_matcher/datetime.rs :: impl <T>DateTimeMatcher<T> / fn is_empty -> r
@@ -2450,6 +2667,9 @@ impl<V> RegexTreeMap<V> {
     pub fn is_empty(&self) -> (r: bool) ensures r == (self.tmap2().len() == 0) { unimplemented!() }
     #[verifier::external_body]
     pub fn len(&self) -> (r: usize) ensures r == self.tmap2().len() { unimplemented!() }
+    // warm-up of the tree's regexes: stored (pattern, id) -> value map untouched (unit `tree`: RegexTreeMap::cache ensures same_obs), budget never grows
+    #[verifier::external_body]
+    pub fn cache(&mut self, limit: u64, level: Option<u64>) -> (r: u64) ensures final(self).tmap2() == old(self).tmap2(), r <= limit { unimplemented!() }
 }
 //@@ item src/router/request_matcher/path_and_query.rs :: struct PathAndQueryMatcher
 pub type IdMap<T> = HashMap<String, RouteRef<T>>;
@@ -2845,6 +3065,18 @@ impl<T> PathAndQueryMatcher<T> {
     //@|     lemma_pq_batched(*old(self), *self, ids@);
     //@| }
 
+    // C12 / C02 (path layer): warming the cache touches only the tree's regex cache
+    //@@ fn src/router/request_matcher/path_and_query.rs :: impl <T>PathAndQueryMatcher<T> / fn cache -> r
+    //@| requires old(self).wf(),
+    //@| ensures same_store(*old(self), *final(self)), r <= limit,
+    //@| exit proof {
+    //@|     assert(self.static_rules@ == old(self).static_rules@); assert(self.regex_tree_rule.tmap2() == old(self).regex_tree_rule.tmap2());
+    //@|     assert forall|x: RouteRef<T>| self.in_static(x) == old(self).in_static(x) by {}
+    //@|     assert forall|x: RouteRef<T>| self.in_tree(x) == old(self).in_tree(x) by {}
+    //@|     assert forall|x: RouteRef<T>| #![trigger self.sholds(x)] #![trigger old(self).sholds(x)] self.sholds(x) <==> old(self).sholds(x) by { assert(self.in_static(x) == old(self).in_static(x)); assert(self.in_tree(x) == old(self).in_tree(x)); }
+    //@|     lemma_pq_counted_sub(*old(self), *self, false);
+    //@| }
+
     //@@ fn src/router/request_matcher/path_and_query.rs :: impl <T>PathAndQueryMatcher<T> / fn len -> r
     //@| ensures r == self.cnt(),
     //@@ fn src/router/request_matcher/path_and_query.rs :: impl <T>PathAndQueryMatcher<T> / fn is_empty -> r
@@ -2892,6 +3124,43 @@ pub proof fn c02_path_rebuild<T>(a: PathAndQueryMatcher<T>, b: PathAndQueryMatch
     requires a.wf(), b.wf(), forall|x: RouteRef<T>| a.holds(x) <==> b.holds(x),
     ensures forall|x: RouteRef<T>| path_answers(a, q, x) <==> path_answers(b, q, x),
 { lemma_path_exact(a, q); lemma_path_exact(b, q); }
+
+// ================================================================ C12 corollary: warming a layer's cache changes no answer of that layer
+// (each layer's `cache` is verified above to keep the invariant and the stored set; by the layer's exactness the answers are a function of those)
+pub proof fn c12_scheme_cache<T>(a: SchemeMatcher<T>, b: SchemeMatcher<T>, q: Request)
+    requires a.wf(), same_store(a, b),
+    ensures forall|x: RouteRef<T>| scheme_answers(a, q, x) <==> scheme_answers(b, q, x),
+{ c02_scheme_rebuild(a, b, q); }
+pub proof fn c12_host_cache<T>(a: HostMatcher<T>, b: HostMatcher<T>, q: Request)
+    requires a.wf(), same_store(a, b), a.always_match_any_host == b.always_match_any_host,
+    ensures forall|x: RouteRef<T>| host_answers(a, q, x) <==> host_answers(b, q, x),
+{ c02_host_rebuild(a, b, q); }
+pub proof fn c12_ip_cache<T>(a: IpMatcher<T>, b: IpMatcher<T>, q: Request)
+    requires a.wf(), same_store(a, b),
+    ensures forall|x: RouteRef<T>| ip_answers(a, q, x) <==> ip_answers(b, q, x),
+{ c02_ip_rebuild(a, b, q); }
+pub proof fn c12_method_cache<T>(a: MethodMatcher<T>, b: MethodMatcher<T>, q: Request)
+    requires a.wf(), same_store(a, b),
+    ensures forall|x: RouteRef<T>| method_answers(a, q, x) <==> method_answers(b, q, x),
+{ c02_method_rebuild(a, b, q); }
+pub proof fn c12_header_cache<T>(a: HeaderMatcher<T>, b: HeaderMatcher<T>, q: Request)
+    requires a.wf(), same_store(a, b),
+    ensures forall|x: RouteRef<T>| header_answers(a, q, x) <==> header_answers(b, q, x),
+{ c02_header_rebuild(a, b, q); }
+pub proof fn c12_datetime_cache<T>(a: DateTimeMatcher<T>, b: DateTimeMatcher<T>, q: Request)
+    requires a.wf(), same_store(a, b),
+    ensures forall|x: RouteRef<T>| datetime_answers(a, q, x) <==> datetime_answers(b, q, x),
+{ c02_datetime_rebuild(a, b, q); }
+pub proof fn c12_path_cache<T>(a: PathAndQueryMatcher<T>, b: PathAndQueryMatcher<T>, q: Request)
+    requires a.wf(), same_store(a, b),
+    ensures forall|x: RouteRef<T>| path_answers(a, q, x) <==> path_answers(b, q, x),
+{ c02_path_rebuild(a, b, q); }
+// ---- PINS: the loop `for v in tree.iter_mut()` of HostMatcher::cache is summarised by vf_tree_iter_mut_st (assumed visiting contract); the functions
+// that implement that iteration are tied to their present text
+//@@ pin src/regex_radix_tree/tree.rs :: impl <V>UniqueRegexTreeMap<V> / fn iter_mut = 9c3549883f40
+//@@ pin src/regex_radix_tree/tree.rs :: impl <V>RegexTreeMap<V> / fn iter_mut = 7a03d47f8502
+//@@ pin src/regex_radix_tree/item.rs :: impl <V>Item<V> / fn iter_mut = 89a7b031dc68
+//@@ pin src/regex_radix_tree/iter.rs :: impl <'a,V>IteratorforItemIterMut<'a,V> / fn next = b562ac969e5d
 
 // ================================================================ Router (src/router/mod.rs)
 //@@ rename SchemeMatcher Sub
@@ -3068,12 +3337,12 @@ impl<T> Router<T> {
     // the level counter cannot overflow and both loops terminate
     //@@ fn src/router/mod.rs :: impl <T>Router<T> / fn cache
     //@| requires old(self).wf(),
-    //@| ensures final(self).wf(), final(self).routes@ == old(self).routes@, final(self).config == old(self).config, sub_obs(final(self).matcher) == sub_obs(old(self).matcher),
+    //@| ensures final(self).wf(), final(self).routes@ == old(self).routes@, final(self).config == old(self).config, same_store(old(self).matcher, final(self).matcher),
     //@|     forall|x: RouteRef<T>| #![trigger final(self).live(x)] final(self).live(x) <==> old(self).live(x),
     //@| entry broadcast use group_hash_axioms; broadcast use axiom_string_key_model;
     //@| loopbefore 0: let ghost p0 = prev_cache_limit as int;
     //@| loop 0: invariant_except_break retry <= 5,
-    //@|     invariant self.matcher.wf(), self.routes@ == old(self).routes@, self.config == old(self).config, sub_obs(self.matcher) == sub_obs(old(self).matcher),
+    //@|     invariant self.matcher.wf(), self.routes@ == old(self).routes@, self.config == old(self).config, same_store(old(self).matcher, self.matcher),
     //@|         forall|x: RouteRef<T>| #![trigger self.matcher.holds(x)] self.matcher.holds(x) <==> old(self).matcher.holds(x),
     //@|         0 <= retry <= 6, prev_cache_limit as int <= p0, level as int + prev_cache_limit as int <= p0 + retry as int, p0 <= i64::MAX,
     //@|     decreases prev_cache_limit as int + (6 - retry as int),
